@@ -415,8 +415,18 @@ def _cmp_fields(ctx, monitor, key, got, full, fsel, idx, ext, what, ref_top=None
             if not np.array_equal(got.time, full.time[fsel]):
                 suffix = "time"
                 problems.append(f"time {got.time.tolist()[:8]} expected {full.time[fsel].tolist()[:8]}")
+        elif ext in ("pdb", "pdb.gz", "gro") and got.time is not None and full.time is not None and not np.array_equal(got.time, full.time[fsel]):
+            # PDB models and GRO titles without 't=' carry no time at all; their readers number the frames of each CALL from 0
+            # (load_frame gives 0, a strided load 0,1,2,..): the numbers are not content of the file.  Observed, not judged.
+            ctx.observe("synthesised_time_restarts_per_call", ext)
+            ctx.skip(monitor + ".time", "format stores no time and its reader numbers the frames per call")
+        elif got.time is not None and full.time is not None and not np.array_equal(got.time, full.time[fsel]):
+            # the format stores no times: mdtraj numbers the frames instead.  The numbers of a partial load must still be
+            # those the same frames carry in the full load ("coordinates, times and unit cell alike")
+            suffix = "frame-numbers-as-time"
+            problems.append(f"synthesised time {np.asarray(got.time).tolist()[:8]} expected {full.time[fsel].tolist()[:8]}")
         else:
-            ctx.skip(monitor + ".time", "format does not store times (synthesised)")
+            ctx.ok(monitor + ".synthesised-time")
         if full.unitcell_lengths is not None:
             # compared in float32, the documented type of these attributes: a Trajectory built from float64 box vectors (gro)
             # keeps float64 lengths/angles until the first slice or join casts them, so the two sides may differ in type
